@@ -42,7 +42,7 @@ GMODES = {
     "fill25": (dict(periodic=False, boundary="fill", fill_value=2.5), "fill", 2.5),
     "bperiodic": (dict(periodic=False, boundary="periodic"), "periodic", 0.0),
 }
-CALL_RULES_FULL = [None, "fill+fv", "fill", "extend", "periodic"]
+CALL_RULES_FULL = [None, "fill+fv", "fill+fvdict", "fill", "extend", "periodic"]
 CALL_RULES_LIGHT = [None, "fill+fv"]
 
 
@@ -90,6 +90,11 @@ def _kwargs(W, call_rule, tag="fv"):
     if call_rule == "fill+fv":
         fv = W.scalar(tag)
         kw = dict(boundary="fill", fill_value=fv)
+        rule, fill = "fill", fv
+    elif call_rule == "fill+fvdict":
+        # per-axis mapping spelling of the same choice (any value of the fill, zero included)
+        fv = W.scalar(tag)
+        kw = dict(boundary={"X": "fill"}, fill_value={"X": fv})
         rule, fill = "fill", fv
     elif call_rule == "fill":
         kw = dict(boundary="fill")
